@@ -164,6 +164,20 @@ def check_glob(ctx, tr, rng, k, j, mon, toks=None, fn=None):
         ctx.disagree(f'glob raised {type(e).__name__}', dict(wit, exception=repr(e)[:200]))
         return
     events = mon.disarm()
+    if not aborted and (k + j) % 2 == 0:
+        # written segments go through links, and recursive ones follow them or not, in the same way when the root is a dir_fd
+        fd_ = os.open(root, os.O_RDONLY)
+        try:
+            res_fd = G.glob(text, flags=flags, dir_fd=fd_)
+        except Exception as e:  # noqa: BLE001
+            res_fd = f'raised {type(e).__name__}'
+        finally:
+            os.close(fd_)
+        ctx.count('dir_fd_walks')
+        if res_fd != res:
+            ctx.disagree('glob through dir_fd treats symlinked directories differently from glob through root_dir',
+                         dict(wit, root_dir=res[:12], dir_fd=res_fd if isinstance(res_fd, str) else res_fd[:12]))
+            return
     listed = [lexical_rel(root, e_.rstrip('/')) for e_ in events]
     ctx.evals()
     ctx.count('step_bound_checks')
@@ -212,6 +226,26 @@ def check_glob(ctx, tr, rng, k, j, mon, toks=None, fn=None):
                 fid = findings.classify_path(toks, pth, model_spec(fn), obs)
                 break
             ctx.disagree('with FOLLOW / `***` the result differs from following symlinked directories', dict(wit, missing=miss, extra=extra), fid)
+            return
+    # (6a) a copy of a compiled REALPATH matcher (pickle, deepcopy) applies the same rule as the original, FOLLOW or not
+    if j % 3 == 0:
+        import copy as _copy
+        import pickle as _pickle
+        try:
+            m0 = G.compile(text, flags=flags | G.REALPATH)
+            copies = [('pickle', _pickle.loads(_pickle.dumps(m0))), ('deepcopy', _copy.deepcopy(m0)), ('copy', _copy.copy(m0))]
+            for c in [x for x in tr.candidates(5) if symlink_positions(root, x)][:25]:
+                a0 = m0.match(c, root_dir=root)
+                for what, mc in copies:
+                    ctx.count('realpath_spelling_variants')
+                    if mc.match(c, root_dir=root) is not a0:
+                        ctx.disagree(f'a {what} of a compiled REALPATH matcher treats symlinked directories differently from the original',
+                                     dict(wit, candidate=c, original=a0))
+                        raise StopIteration
+        except StopIteration:
+            return
+        except Exception as e:  # noqa: BLE001
+            ctx.disagree(f'copying a compiled REALPATH matcher raised {type(e).__name__}', dict(wit, exception=repr(e)[:160]))
             return
     # (6) globmatch(REALPATH) applies the same rule to the path it is given
     segs_ = R.split_segments(toks)[1]
